@@ -13,9 +13,12 @@ import (
 	"hash/fnv"
 	"math/rand"
 	"os"
+	"runtime"
 	"sort"
 	"strings"
 	"sync"
+	"sync/atomic"
+	"time"
 
 	kafka "github.com/segmentio/kafka-go"
 	"kverif/kvfmt"
@@ -167,14 +170,99 @@ func inList(x int, l []int) bool {
 	return false
 }
 
+// hashConc: the key-hashing balancers with their DEFAULT (pooled / stateless) hashers shared by
+// many goroutines, as a Writer used from several goroutines does: the partition of a key is a
+// pure function of key and partition count, so every concurrent call must return what the
+// same call returned sequentially (and that value is compared with the model for the short
+// keys).  More goroutines than Ps, short and long keys.  A wrong result needs one call to be
+// interrupted between Reset, Write and Sum32 while another caller holds the same hasher, which
+// is rare; the same family therefore also runs in a binary built with the race detector
+// (checks/c13.py), where two callers sharing a hasher are reported whatever the timing.
+func hashConc(r *rand.Rand, scale float64) {
+	const nparts = 1021
+	ps := offered(nparts)
+	sizes := []int{0, 3, 24, 100, 4 << 10, 64 << 10, 1 << 20}
+	keys := make([][]byte, len(sizes))
+	for i, n := range sizes {
+		k := make([]byte, n)
+		for j := range k {
+			k[j] = byte(r.Intn(256))
+		}
+		keys[i] = k
+	}
+	type bal struct {
+		name   string
+		b      kafka.Balancer
+		budget time.Duration
+	}
+	bals := []bal{
+		{"hash", &kafka.Hash{}, 1200 * time.Millisecond},
+		{"ref", &kafka.ReferenceHash{}, 1200 * time.Millisecond},
+		{"crc", kafka.CRC32Balancer{}, 300 * time.Millisecond},
+		{"crcc", kafka.CRC32Balancer{Consistent: true}, 300 * time.Millisecond},
+		{"mur", kafka.Murmur2Balancer{}, 300 * time.Millisecond},
+		{"murc", kafka.Murmur2Balancer{Consistent: true}, 300 * time.Millisecond},
+	}
+	procs := runtime.GOMAXPROCS(0)
+	for _, bl := range bals {
+		want := make([]int, len(keys))
+		for i, k := range keys {
+			if len(k) == 0 && bl.name != "crcc" && bl.name != "murc" {
+				// empty key: Hash / ReferenceHash fall back to round-robin, the non-consistent
+				// crc32 / murmur2 balancers pick at random — only the range is checked
+				want[i] = -1
+				continue
+			}
+			want[i] = bl.b.Balance(kafka.Message{Key: k}, ps...)
+		}
+		const g = 48
+		var wg sync.WaitGroup
+		var calls int64
+		var mu sync.Mutex
+		first := ""
+		deadline := time.Now().Add(time.Duration(float64(bl.budget) * scale))
+		for t := 0; t < g; t++ {
+			wg.Add(1)
+			go func(t int) {
+				defer wg.Done()
+				for c := 0; time.Now().Before(deadline); c++ {
+					i := (t + c) % len(keys)
+					got := bl.b.Balance(kafka.Message{Key: keys[i]}, ps...)
+					atomic.AddInt64(&calls, 1)
+					if (want[i] >= 0 && got != want[i]) || got < 0 || got >= nparts {
+						mu.Lock()
+						if first == "" {
+							first = fmt.Sprintf("DIFF:keylen=%x:got=%x:sequential=%x", len(keys[i]), got, want[i])
+						}
+						mu.Unlock()
+						return
+					}
+				}
+			}(t)
+		}
+		wg.Wait()
+		res := "ok"
+		if first != "" {
+			res = first
+		}
+		emit("hashconc", fmt.Sprintf("%s %x %x", bl.name, nparts, g), res, fmt.Sprintf("default-hasher,concurrent,g=%d,calls>=%d", g, calls/1000*1000))
+	}
+	runtime.GOMAXPROCS(procs)
+}
+
 func main() {
 	seed := flag.Int64("seed", 1, "PRNG seed")
 	count := flag.Int("n", 2000, "number of cases per family")
 	conc := flag.Bool("conc", true, "also run concurrent histories")
+	only := flag.String("only", "", "hashconc: run only the concurrent default-hasher family (used by the race-detector build)")
 	flag.Parse()
 	r := rand.New(rand.NewSource(*seed))
 	out = bufio.NewWriterSize(os.Stdout, 1<<20)
 	defer out.Flush()
+	if *only == "hashconc" {
+		hashConc(r, 0.25)
+		return
+	}
 
 	// keys whose hash code is a boundary value (sign bit, all ones, zero), against every
 	// balancer that interprets the hash, for partition counts that are and are not powers of two
@@ -474,6 +562,7 @@ func main() {
 		sort.Ints(cntLB) // which partitions carry the remainder depends on the interleaving
 		emit("lbconc", fmt.Sprintf("%x %x %x", 10, n, g*per), kvfmt.Ints(cntLB), fmt.Sprintf("g=%d", g))
 	}
+	hashConc(r, 1)
 	// The list the Writer offers to its balancer (writer.go loadCachedPartitions): it must be
 	// 0..n-1 for every caller, also while another caller grows the process-wide cache.  The
 	// counts grow from call to call so that every round contains growth events.
